@@ -142,6 +142,7 @@ func explorationRoots(c *Ctx, fn *ssa.Function) []*ssa.Function {
 // explored inline from root: it walks phis, conversions and
 //   - results of calls to such helpers  → the values their returns yield,
 //   - parameters of such helpers        → the arguments at their call sites,
+//
 // and reports whether every origin satisfies accept. nil constants are
 // reported to accept like any other origin (callers decide whether a nil
 // origin matters).
